@@ -166,15 +166,20 @@ def run(rep, prog, tier):
             rep.ob('R-FLOW', '%s:%s parameters used' % (rel, q), not unused, 'unused parameters: %s' % unused if unused else 'all %d parameters are used' % len(unp), rel, fn.lineno,
                    what='every named parameter influences the model')
         # ---- local roles: derived variables inherit from their definition (nu_func, nu1_0 ...) ------------------------
+        # (the name of a local says less than its definition: a local defined from quantities of one role has that role, whatever it
+        # is called; the name decides only when the definition mixes roles or has none)
         local_roles = {}
+        unpacked = set(unp or [])
         for n in own_nodes(fn):
             if isinstance(n, ast.Assign) and isinstance(n.targets[0], ast.Name):
                 t = n.targets[0].id
-                r = role_of_name(t)
-                if r is None:
-                    rs = expr_roles(n.value, local_roles)
-                    if len(rs) == 1:
-                        local_roles[t] = next(iter(rs))
+                if t in unpacked:
+                    continue
+                rs = expr_roles(n.value, local_roles)
+                if len(rs) == 1 and not isinstance(n.value, ast.Call):
+                    local_roles[t] = next(iter(rs))
+                elif role_of_name(t) is None and len(rs) == 1:
+                    local_roles[t] = next(iter(rs))
         # ---- (2) calls ---------------------------------------------------------------------------------------------------
         for c in own_nodes(fn):
             if not isinstance(c, ast.Call):
